@@ -109,6 +109,18 @@ def scan_loops():
     return out
 
 
+def scan_as_p1():
+    """1 iff `as_P1` is (docstring aside) the single statement `return self.as_P1_supercell((1, 1, 1))`"""
+    tree = ast.parse((SRC / "crystal" / "crystal.py").read_text())
+    cls = next(n for n in tree.body if isinstance(n, ast.ClassDef) and n.name == "Crystal")
+    f = next((n for n in cls.body if isinstance(n, ast.FunctionDef) and n.name == "as_P1"), None)
+    if f is None:
+        return 0
+    body = [st for st in f.body if not (isinstance(st, ast.Expr) and isinstance(st.value, ast.Constant) and isinstance(st.value.value, str))]
+    return 1 if len(body) == 1 and isinstance(body[0], ast.Return) and body[0].value is not None \
+        and ast.unparse(body[0].value) == "self.as_P1_supercell((1, 1, 1))" else 0
+
+
 def lean_mat(m):
     return "[" + ", ".join("[" + ", ".join(f"({x.numerator} : Rat) / {x.denominator}" for x in r) + "]" for r in m) + "]"
 
@@ -126,6 +138,8 @@ def generate():
          f"def supercellFromVectors : List Nat := [{sup['as_P1_supercell']}, {sup['to_translational_symmetry']}]",
          "/-- 1 iff the supercell constructors walk `product(arange n₁, arange n₂, arange n₃)` × unit-cell molecules, each translated by `[q,r,s] · lattice` -/",
          f"def supercellLoopShape : List Nat := [{loops[0]}, {loops[1]}]",
+         "/-- 1 iff `as_P1` is `as_P1_supercell((1, 1, 1))` -/",
+         f"def asP1IsUnitSupercell : Nat := {scan_as_p1()}",
          "", "end ChmpyVerif.Gen", ""]
     write_if_changed(LEAN / "ChmpyVerif" / "Gen" / "Trigonal.lean", "\n".join(L))
     return mats, sup
